@@ -99,7 +99,9 @@ def gen_cond(rnd, env, depth):
 STATIC_TAGS = ['Biz', 'ride', 'FOOD', 'x-y', 'recurring', 'Ride', "kid's", "O'Hare", 'say "hi', "rock'n'roll", 'fee (atm)', '5" sub']
 DYNAMIC_TAGS = ['{field.memo}', '{source}', '{extract("(\\\\d+)")}', '{extract(field.memo, "REF (\\\\w+)")}', '{[r.kind for r in extra]}',
                 '{nosuchvar}', '{ }', '{field.missing}', '{amount > 100}', '{split(" ", 0)}', '{lowercase(source)}',
-                '{[r.kind for r in extra if r.n > 2]}']
+                '{[r.kind for r in extra if r.n > 2]}', '{extract("(\\\\d{4})")}', '{extract(description, "(\\\\d{2,4})")}',
+                '{regex_replace(source, "[a-z]{2,}", "x")}', '{lowercase("{A}")}', '{"{big}" if amount > 100 else "small"}',
+                '{extract(field.memo, "REF (\\\\w{3})")}']
 
 
 def gen_tags(rnd):
@@ -127,6 +129,13 @@ def gen_rule(rnd, i, var_names, tag_only_p=0.4):
         env.append(rnd.choice([nm, f'{nm} != ""', f'{nm} == "123"']))
     r = {'name': f'R{i} {word(rnd).title()}' if rnd.random() < 0.5 else f'R{i}', 'match': gen_cond(rnd, env, 3 if rnd.random() < 0.3 else 1),
          'category': '', 'subcategory': '', 'merchant': '', 'tags': gen_tags(rnd), 'priority': None, 'lets': lets, 'fields': []}
+    if rnd.random() < 0.10:                  # a walrus target in the match: must stay local to THIS rule's evaluation
+        nm = rnd.choice(['big', 'v0', 'v1', 'is_large', 'is_ride', 'jan', 'amount', 'month', 'source'])
+        val = rnd.choice(['amount > 100', 'amount > 1000', f'contains("{word(rnd)}")', 'true', 'false', '5', '"Amex"'])
+        r['match'] = rnd.choice([f'({nm} := {val}) and {r["match"]}', f'({nm} := {val}) or {r["match"]}',
+                                 f'{r["match"]} and ({nm} := {val})', f'not ({nm} := {val}) and {r["match"]}'])
+    elif rnd.random() < 0.06:                # ... and rules that read such a name without defining it
+        r['match'] = rnd.choice(['big', 'big and ' + r['match'], 'not big', r['match'] + ' or big'])
     if lets and rnd.random() < 0.5:          # a dynamic tag over this rule's own let binding
         r['tags'].append('{' + rnd.choice(lets)[0] + '}')
     if rnd.random() >= tag_only_p:
@@ -136,7 +145,7 @@ def gen_rule(rnd, i, var_names, tag_only_p=0.4):
     if rnd.random() < 0.3:
         r['merchant'] = rnd.choice(['Uber Inc', 'Costco', 'Big Tag'])
     if rnd.random() < 0.25:
-        r['priority'] = rnd.choice([10, 50, 60, 100])
+        r['priority'] = rnd.choice([10, 50, 60, 100, 0, -5, -10])
     if not r['category'] and not r['tags']:
         r['tags'] = [rnd.choice(STATIC_TAGS)]
     for j in range(rnd.choice([0, 0, 0, 1, 2])):
@@ -312,7 +321,7 @@ def gen_csv_file(rnd, nrules=None):
                                                   '{extract("(\\\\d+)")}']))
         if not cat and not tags:
             tags = ['tagged']
-        rows.append({'pattern': gen_csv_pattern(rnd), 'merchant': f'M{i} {word(rnd).title()}', 'category': cat,
+        rows.append({'pattern': gen_csv_pattern(rnd), 'merchant': '' if rnd.random() < 0.12 else f'M{i} {word(rnd).title()}', 'category': cat,
                      'subcategory': rnd.choice(SUBS + ['']), 'tags': tags})
     tfs = [list(rnd.choice(TF_POOL)) for _ in range(rnd.choice([1, 2]))] if rnd.random() < 0.2 else []
     return {'rows': rows, 'tfs': tfs}
